@@ -7,6 +7,7 @@ from vpm.core import Prop, Rejected
 from vpm.labels import enc, dec
 
 PROPERTY_ID = "C12"
+FUZZ = {"props": ["keys", "navigate"], "quick": [2, 800], "thorough": [8, 30000]}
 RULE = ("Tables of 1-3 fields with domains of 1-4 mixed hashables (ints, strings, None, floats, tuples, frozensets, "
         "nested tuples) seeded with collisions (an outer-domain element that is itself a tuple of valid field keys), "
         "cell value = flat index; per table ALL full keys, nested key chains, outer-key lists (permutations and "
@@ -85,6 +86,16 @@ def build_table(spec):
     return t, doms, base
 
 
+def is_cell(x, value):
+    """x is one scalar cell equal to value (anything else - a table, an array, None - is not)"""
+    if is_tableish(x):
+        return False
+    try:
+        return np.ndim(x) == 0 and float(x) == float(value)
+    except (TypeError, ValueError):
+        return False
+
+
 def is_tableish(x):
     return hasattr(x, "table_index")
 
@@ -92,7 +103,7 @@ def is_tableish(x):
 def expect_equal(ctx, name, got, doms_left, arr, what):
     """got must be a scalar equal to arr (0-d) or a table whose field domains are doms_left and array arr."""
     if arr.ndim == 0:
-        ctx.check(not is_tableish(got) and float(got) == float(arr), name, lambda: f"{what}: got {got!r} expected cell {float(arr)}")
+        ctx.check(is_cell(got, arr), name, lambda: f"{what}: got {got!r} expected cell {float(arr)}")
         return
     ok = is_tableish(got)
     ctx.check(ok, name, lambda: f"{what}: expected a table, got {got!r}")
@@ -131,7 +142,7 @@ def prop_keys(spec, ctx):
         cur = t
         for f, p in enumerate(pos):
             cur = ctx.call("C12.nested_key_raises", lambda: cur[doms[f][p]])
-        ctx.check(not is_tableish(cur) and float(cur) == float(base[pos]), "C12.nested_key_cell",
+        ctx.check(is_cell(cur, base[pos]), "C12.nested_key_cell",
                   lambda: f"nested {key!r}: {cur!r} expected {base[pos]}")
         if nf >= 2:
             if key in outer:
@@ -140,7 +151,7 @@ def prop_keys(spec, ctx):
                 expect_equal(ctx, "C12.outer_membership_wins", got, doms[1:], base[i], f"t[{key!r}] (also an outer element)")
             else:
                 got = ctx.call("C12.full_key_raises", lambda: t[key])
-                ctx.check(not is_tableish(got) and float(got) == float(base[pos]), "C12.full_key_cell",
+                ctx.check(is_cell(got, base[pos]), "C12.full_key_cell",
                           lambda: f"t[{key!r}] = {got!r} expected {base[pos]}")
         # partial keys (prefixes of length 2 in 3-field tables)
         if nf == 3:
